@@ -201,8 +201,11 @@ func ReflectorRejects[S, A any](h *H, l optics.Reflector[A], decoys ...any) {
 	arr := reflect.New(reflect.ArrayOf(1, st))
 	mp := reflect.MakeMapWithSize(reflect.MapOf(reflect.TypeOf(""), st), 1)
 	mp.SetMapIndex(reflect.ValueOf("k"), reflect.Zero(st))
-	args = append(args, sl.Interface(), arr.Interface(), arr.Elem().Interface(), mp.Interface(),
-		reflect.MakeChan(reflect.ChanOf(reflect.BothDir, st), 1).Interface(),
+	args = append(args, sl.Interface(), arr.Interface(), arr.Elem().Interface(), mp.Interface())
+	if st.Size() < 1<<16 { // a channel's element type must be smaller than 64 KiB
+		args = append(args, reflect.MakeChan(reflect.ChanOf(reflect.BothDir, st), 1).Interface())
+	}
+	args = append(args,
 		reflect.MakeSlice(reflect.SliceOf(reflect.TypeOf(p)), 1, 1).Interface(),
 		reflect.Zero(reflect.FuncOf(nil, []reflect.Type{reflect.TypeOf(p)}, false)).Interface())
 	before := ar.Snapshot()
